@@ -547,6 +547,7 @@ class SlotNode(BaseNode):
         if (
             slot_fill.is_filled
             and component_ctx.registry.settings.context_behavior == ContextBehavior.DJANGO
+            and not component_ctx.is_only
             and component_ctx.outer_context is not None
             and _COMPONENT_CONTEXT_KEY in component_ctx.outer_context
         ):
@@ -629,9 +630,15 @@ class SlotNode(BaseNode):
             return context
 
         registry_settings = component_ctx.registry.settings
-        if registry_settings.context_behavior == ContextBehavior.DJANGO:
+        # NOTE: The `only` flag isolates a single component the same way as the "isolated" context behavior
+        if component_ctx.is_only:
+            context_behavior = ContextBehavior.ISOLATED
+        else:
+            context_behavior = registry_settings.context_behavior
+
+        if context_behavior == ContextBehavior.DJANGO:
             return context
-        elif registry_settings.context_behavior == ContextBehavior.ISOLATED:
+        elif context_behavior == ContextBehavior.ISOLATED:
             outer_context = component_ctx.outer_context
             # NOTE: All fills of a component share the same `outer_context`. Each fill is rendered with its own
             # copy, so that what we add for one fill (slot data, default slot, ...) is not visible in another
@@ -639,7 +646,7 @@ class SlotNode(BaseNode):
             # (e.g. via `{{ default_var }}` -> slot's default content -> another slot -> another fill).
             return copy(outer_context) if outer_context is not None else Context()
         else:
-            raise ValueError(f"Unknown value for context_behavior: '{registry_settings.context_behavior}'")
+            raise ValueError(f"Unknown value for context_behavior: '{context_behavior}'")
 
 
 class FillNode(BaseNode):
